@@ -93,6 +93,92 @@ func genNonce(pfx string, max int) ([][]byte, *eat.Nonce) {
 	return bs, ndOpt(pfx+".present", n)
 }
 
+// verifPut stores src (a pointer to a generated value) into the claims field *dst, present
+// iff the nd boolean `name`. It is typed at RUN time, so that the harness still compiles when
+// a field's Go type is changed in the tree under check (pointer <-> value, int32 <-> int64, ...):
+// such an edit then changes behaviour, not compilability.
+func verifPut(dst interface{}, name string, src interface{}) {
+	has := ndBool(name)
+	switch d := dst.(type) {
+	case **string:
+		*d = ndOpt(name, src.(*string))
+	case *string:
+		if has {
+			*d = *src.(*string)
+		}
+	case **int32:
+		*d = ndOpt(name, src.(*int32))
+	case **int64:
+		x := int64(*src.(*int32))
+		*d = ndOpt(name, &x)
+	case **int:
+		x := int(*src.(*int32))
+		*d = ndOpt(name, &x)
+	case **uint16:
+		*d = ndOpt(name, src.(*uint16))
+	case **uint32:
+		x := uint32(*src.(*uint16))
+		*d = ndOpt(name, &x)
+	case **uint64:
+		switch v := src.(type) {
+		case *uint16:
+			x := uint64(*v)
+			*d = ndOpt(name, &x)
+		case *uint:
+			x := uint64(*v)
+			*d = ndOpt(name, &x)
+		}
+	case **uint:
+		switch v := src.(type) {
+		case *uint:
+			*d = ndOpt(name, v)
+		case *uint16:
+			x := uint(*v)
+			*d = ndOpt(name, &x)
+		}
+	case **[]byte:
+		*d = ndOpt(name, src.(*[]byte))
+	case *[]byte:
+		if has {
+			*d = *src.(*[]byte)
+		}
+	case **eat.UEID:
+		u := eat.UEID(*src.(*[]byte))
+		*d = ndOpt(name, &u)
+	case *eat.UEID:
+		if has {
+			*d = eat.UEID(*src.(*[]byte))
+		}
+	default:
+		panic(verifAbort{"generator: field type not handled"})
+	}
+}
+
+// verifPutAlways: the field is set (run-time typed like verifPut)
+func verifPutAlways(dst interface{}, src *uint16) {
+	switch d := dst.(type) {
+	case **uint16:
+		*d = src
+	case **uint32:
+		x := uint32(*src)
+		*d = &x
+	case **uint64:
+		x := uint64(*src)
+		*d = &x
+	case **uint:
+		x := uint(*src)
+		*d = &x
+	case **int:
+		x := int(*src)
+		*d = &x
+	case **int32:
+		x := int32(*src)
+		*d = &x
+	default:
+		panic(verifAbort{"lifecycle field type not handled"})
+	}
+}
+
 // ---------- generators ----------
 
 // verifGenPfx is prepended to every nd variable name of the claims generators, so that a
@@ -120,16 +206,16 @@ func genSwComponent(pfx string, strMax int) *genSw {
 	g.mv = ndBytes(pfx + ".mv")
 	g.sid = ndBytes(pfx + ".sid")
 	sc := &SwComponent{}
-	sc.MeasurementType = ndOpt(pfx+".has.mt", &g.mt)
-	sc.MeasurementValue = ndOpt(pfx+".has.mv", &g.mv)
-	sc.Version = ndOpt(pfx+".has.ver", &g.ver)
-	sc.SignerID = ndOpt(pfx+".has.sid", &g.sid)
-	sc.MeasurementDesc = ndOpt(pfx+".has.desc", &g.desc)
-	g.hasMT = sc.MeasurementType != nil
-	g.hasMV = sc.MeasurementValue != nil
-	g.hasVer = sc.Version != nil
-	g.hasSID = sc.SignerID != nil
-	g.hasDesc = sc.MeasurementDesc != nil
+	verifPut(&sc.MeasurementType, pfx+".has.mt", &g.mt)
+	verifPut(&sc.MeasurementValue, pfx+".has.mv", &g.mv)
+	verifPut(&sc.Version, pfx+".has.ver", &g.ver)
+	verifPut(&sc.SignerID, pfx+".has.sid", &g.sid)
+	verifPut(&sc.MeasurementDesc, pfx+".has.desc", &g.desc)
+	g.hasMT = ndBool(pfx + ".has.mt")
+	g.hasMV = ndBool(pfx + ".has.mv")
+	g.hasVer = ndBool(pfx + ".has.ver")
+	g.hasSID = ndBool(pfx + ".has.sid")
+	g.hasDesc = ndBool(pfx + ".has.desc")
 	g.sc = sc
 	return g
 }
@@ -214,26 +300,26 @@ func genP1Claims(maxN, strMax int) *genP1 {
 	g.noSw = ndUint(gn("nosw"))
 	g.sw = genSwComponents(gn("sw"), maxN, strMax)
 	c := &P1Claims{CanonicalProfile: "PSA_IOT_PROFILE_1"}
-	c.Profile = ndOpt(gn("has.profile"), &g.profile)
-	c.ClientID = ndOpt(gn("has.clientid"), &g.clientID)
-	c.SecurityLifeCycle = ndOpt(gn("has.lifecycle"), &g.lc)
-	c.ImplID = ndOpt(gn("has.implid"), &g.implID)
-	c.BootSeed = ndOpt(gn("has.bootseed"), &g.boot)
-	c.CertificationReference = ndOpt(gn("has.certref"), &g.certRef)
-	c.NoSwMeasurements = ndOpt(gn("has.nosw"), &g.noSw)
-	c.Nonce = ndOpt(gn("has.nonce"), &g.nonce)
-	c.InstID = ndOpt(gn("has.instid"), &g.instID)
-	c.VSI = ndOpt(gn("has.vsi"), &g.vsi)
-	g.hasProfile = c.Profile != nil
-	g.hasClientID = c.ClientID != nil
-	g.hasLC = c.SecurityLifeCycle != nil
-	g.hasImplID = c.ImplID != nil
-	g.hasBoot = c.BootSeed != nil
-	g.hasCertRef = c.CertificationReference != nil
-	g.hasNoSw = c.NoSwMeasurements != nil
-	g.hasNonce = c.Nonce != nil
-	g.hasInstID = c.InstID != nil
-	g.hasVSI = c.VSI != nil
+	verifPut(&c.Profile, gn("has.profile"), &g.profile)
+	verifPut(&c.ClientID, gn("has.clientid"), &g.clientID)
+	verifPut(&c.SecurityLifeCycle, gn("has.lifecycle"), &g.lc)
+	verifPut(&c.ImplID, gn("has.implid"), &g.implID)
+	verifPut(&c.BootSeed, gn("has.bootseed"), &g.boot)
+	verifPut(&c.CertificationReference, gn("has.certref"), &g.certRef)
+	verifPut(&c.NoSwMeasurements, gn("has.nosw"), &g.noSw)
+	verifPut(&c.Nonce, gn("has.nonce"), &g.nonce)
+	verifPut(&c.InstID, gn("has.instid"), &g.instID)
+	verifPut(&c.VSI, gn("has.vsi"), &g.vsi)
+	g.hasProfile = ndBool(gn("has.profile"))
+	g.hasClientID = ndBool(gn("has.clientid"))
+	g.hasLC = ndBool(gn("has.lifecycle"))
+	g.hasImplID = ndBool(gn("has.implid"))
+	g.hasBoot = ndBool(gn("has.bootseed"))
+	g.hasCertRef = ndBool(gn("has.certref"))
+	g.hasNoSw = ndBool(gn("has.nosw"))
+	g.hasNonce = ndBool(gn("has.nonce"))
+	g.hasInstID = ndBool(gn("has.instid"))
+	g.hasVSI = ndBool(gn("has.vsi"))
 	c.SwComponents = g.sw.iface()
 	g.c = c
 	return g
@@ -331,23 +417,22 @@ func genP2Claims(maxN, strMax, maxNonce int) *genP2 {
 	g.sw = genSwComponents(gn("sw"), maxN, strMax)
 	c := &P2Claims{CanonicalProfile: "http://arm.com/psa/2.0.0"}
 	c.Profile, g.profKind, g.profStr = ndEatProfile(gn("profile"), 26)
-	c.ClientID = ndOpt(gn("has.clientid"), &g.clientID)
-	c.SecurityLifeCycle = ndOpt(gn("has.lifecycle"), &g.lc)
-	c.ImplID = ndOpt(gn("has.implid"), &g.implID)
-	c.BootSeed = ndOpt(gn("has.bootseed"), &g.boot)
-	c.CertificationReference = ndOpt(gn("has.certref"), &g.certRef)
-	c.VSI = ndOpt(gn("has.vsi"), &g.vsi)
-	u := eat.UEID(g.instID)
-	c.InstID = ndOpt(gn("has.instid"), &u)
+	verifPut(&c.ClientID, gn("has.clientid"), &g.clientID)
+	verifPut(&c.SecurityLifeCycle, gn("has.lifecycle"), &g.lc)
+	verifPut(&c.ImplID, gn("has.implid"), &g.implID)
+	verifPut(&c.BootSeed, gn("has.bootseed"), &g.boot)
+	verifPut(&c.CertificationReference, gn("has.certref"), &g.certRef)
+	verifPut(&c.VSI, gn("has.vsi"), &g.vsi)
+	verifPut(&c.InstID, gn("has.instid"), &g.instID)
 	g.nonces, c.Nonce = genNonce(gn("nonce"), maxNonce)
-	g.hasClientID = c.ClientID != nil
-	g.hasLC = c.SecurityLifeCycle != nil
-	g.hasImplID = c.ImplID != nil
-	g.hasBoot = c.BootSeed != nil
-	g.hasCertRef = c.CertificationReference != nil
+	g.hasClientID = ndBool(gn("has.clientid"))
+	g.hasLC = ndBool(gn("has.lifecycle"))
+	g.hasImplID = ndBool(gn("has.implid"))
+	g.hasBoot = ndBool(gn("has.bootseed"))
+	g.hasCertRef = ndBool(gn("has.certref"))
 	g.hasNonce = c.Nonce != nil
-	g.hasInstID = c.InstID != nil
-	g.hasVSI = c.VSI != nil
+	g.hasInstID = ndBool(gn("has.instid"))
+	g.hasVSI = ndBool(gn("has.vsi"))
 	c.SwComponents = g.sw.iface()
 	g.c = c
 	return g
